@@ -67,6 +67,8 @@ def c_outcome(o):
         return "(OKeyError %s)" % cstr(b(o[1]))
     if o[0] == "missingurl":
         return "OMissingUrl"
+    if o[0] == "other":
+        return "OOther"
     raise ValueError(o)
 
 
@@ -215,6 +217,8 @@ def run_process(content, typ):
         raise
     except KeyError as e:
         return ("keyerror", e.args[0]), None, None
+    except Exception as e:  # noqa - anything else is outside the model: reported as a disagreement / oracle failure
+        return ("other", "%s: %s" % (type(e).__name__, str(e)[:200])), None, None
     return ("ok", c2, tokenize(js_b), tokenize(css_b)), js_b, css_b
 
 
